@@ -806,7 +806,10 @@ class Interp:
                 self.havoc_field(obj, node.attr, hv)
             else:
                 v = self.spec_eval(node, self.spec_env(fr))
-                self.havoc_inplace(v, hv)
+                if isinstance(node, ast.Name) and not isinstance(v, (VList, VSet, VDict)):
+                    names.add(node.id)       # a scalar local changed through a closure (nonlocal)
+                else:
+                    self.havoc_inplace(v, hv)
         for n in sorted(names):
             k = ls.var_kinds.get(n) or (fr.contract.locals.get(n) if fr.contract else None)
             owner = fr
@@ -950,7 +953,7 @@ class Interp:
     # =====================================================================================
     def assign(self, t, v, fr):
         if isinstance(t, ast.Name):
-            if self.mode != 'spec' and not getattr(fr, 'scratch', False):
+            if self.mode != 'spec' and (not getattr(fr, 'scratch', False) or t.id in fr.declared_nonlocal):
                 self.touch(('name', t.id))
             c = fr.contract
             if c is not None and t.id in c.locals:
@@ -1515,6 +1518,7 @@ class Interp:
             env = self.bind_params(fnode, args, dict(kwargs), f.self_val)
             self.eval_defaults(env, mod, key)
             nf = Frame(mod, key, env, contract=c if (c is not None and c.inline) else None)
+            nf.scratch = True        # the callee's own locals
             nf.old = self.snapshot(env)
             self.V.inlined.add(key)
             return self.run_body(fnode, nf)
@@ -1534,6 +1538,7 @@ class Interp:
             return self.apply_contract(c, fnode, parent.mod, f, args, kwargs, node, fr)
         env = self.bind_params(fnode, args, dict(kwargs))
         nf = Frame(parent.mod, key, env, parent=parent, contract=c)
+        nf.scratch = True            # the closure's own locals (nonlocal names go to the owner frame)
         self.eval_defaults(env, parent.mod, key)
         return self.run_body(fnode, nf)
 
@@ -1593,6 +1598,12 @@ class Interp:
                     if not ok:
                         self.fail(f'{site}.type.{pname}', f'argument {pname} is not a {kind.name}', where=where)
                     env[pname] = conv
+        # ghost parameters: the caller names the witness (a ghost variable of the same name in its scope)
+        for gname in c.ghost_params:
+            cenv = self.spec_env(fr)
+            if gname not in cenv:
+                raise EngineError(f'call to {c.key}: ghost parameter {gname} has no witness in the caller')
+            env[gname] = cenv[gname]
         for lab, req in c.requires:
             self.prove(f'{site}.{lab}', self.spec_bool(req, env), where=where)
         selfv = env.get('self')
